@@ -37,6 +37,10 @@ func (m *F81Model) Distance(seq1 []uint8, seq2 []uint8, weights []float64) (floa
 
 	diff, total := countDiffs(seq1, seq2, m.selectedSites, weights, false)
 	diff = diff / total
+	// no counted difference: distance 0, also when a single base makes b1 = 0 (0/0 below)
+	if diff == 0 {
+		return 0, nil
+	}
 
 	if m.gamma {
 		dist = 1. * m.b1 * m.alpha * (gammaPow(1.-diff/m.b1, -1./m.alpha) - 1.)
